@@ -42,6 +42,14 @@ CHECKS.update({
                 text='All sequences over the event alphabet up to the stated depth, filtered by a reference automaton of legal peer behaviour, each also with every adjacent pair in one loop iteration; subscriber signal grammar and future exactly-once are checked on every sequence.',
                 ref='4 C07'),
 })
+CHECKS.update({
+    'C04': dict(tech='explicit-state graph search over ALL chunkings of each byte stream (state = position, parser state, frames emitted) + exhaustive split/read-buffer enumeration on the real TransportTCP',
+                text='For every frame sequence in the alphabet the complete set of 2^(L-1) chunkings is covered by a graph search on the real FrameParser (a chunking-independent decoder has exactly L+1 states; any dependence appears as extra states and is judged against a reference deframer).',
+                ref='4 C04'),
+    'C12': dict(tech='exhaustive enumeration of hostile input alphabets (header space, hostile item sequences, failing application entry points) against a real endpoint with probe requests',
+                text='All 64 type ids x flag patterns x stream-id classes x body truncations, all sequences of hostile items up to the stated length and every application entry point raising are executed against a real endpoint; containment is judged by termination, task liveness, stream confinement and in-flight/fresh probes.',
+                ref='4 C12'),
+})
 NOT_YET = {
 }
 ALL = ['C%02d' % i for i in range(1, 21)]
